@@ -2,7 +2,7 @@
 comparison-operator tables, two-way merge decisions, phase-length conservation,
 dispatch/propagation rules, loser-tree driver protocol."""
 from engine import ir, dtable, match, order, cfg as cfgm
-from engine.ir import kids, strip_casts, const_int, ref_of
+from engine.ir import kids, strip_casts, const_int, ref_of, walk
 
 NS = "tlx::multiway_merge_detail::"
 
@@ -615,6 +615,488 @@ def check_dispatch(ck, tu):
 
 
 # ------------------------------------------------------------------ loser-tree drivers
+class _NeedE(Exception):
+    pass
+
+
+class LTFlow:
+    """typestate of a loser-tree merge driver, executed abstractly over the statement tree.
+
+    state = (tree, srcok, E, tpend, env)
+      tree  FRESH (players being inserted) | SYNC (the tree holds the head of every sequence) | EMITTED (the winner's
+            head was written to the output) | CONSUMED (the winner's sequence was advanced, the tree still holds the
+            consumed element)
+      srcok the winner variable holds min_source() of the tree as it is now
+      E     what the path knows about `seqs[winner].first == seqs[winner].second` (None: nothing)
+      tpend an element was written to *target and target was not advanced yet
+      env   constants held by locals (bool/int), and which reference locals are bound to the current winner
+    Unknown conditions fork.  A transition that the protocol forbids is reported with the statement that makes it."""
+
+    def __init__(self, fn, lt, seqs, target, guarded):
+        self.fn, self.lt, self.seqs, self.target, self.guarded = fn, lt, seqs, target, guarded
+        self.src = None
+        self.problems = []
+        self.alias = {}          # did of a reference local -> ("first"/"second", index var did)
+        self.nsteps = 0
+        self.seen_events = set()
+
+    # ---- expression helpers
+    def ltcall(self, x, names):
+        if x is None or "callee" not in x:
+            return None
+        c = match.call_named(x, names)
+        return c if c and c.get("member_call") and ref_of(kids(c)[0]) == self.lt else None
+
+    def seq_field(self, e, env=None):
+        """(field, index var did) if e is seqs[i].first/.second or a reference local bound to it"""
+        e = strip_casts(e)
+        while e is not None and e["k"] == "ParenExpr":
+            e = strip_casts(kids(e)[0])
+        if e is None:
+            return None
+        d = ref_of(e)
+        if d is not None and d in self.alias:
+            if env is not None and (d, "bound") not in env:
+                raise ir.AnalysisBroken("%s: reference local used after the winner changed (line %s)" % (self.fn.full, e.get("l")))
+            return self.alias[d]
+        f = match.field_of(e)
+        if f and f[1] in ("first", "second"):
+            p = match.index_parts(f[0])
+            if p and ref_of(p[0]) == self.seqs:
+                return (f[1], ref_of(p[1]) if ref_of(p[1]) is not None else "expr:" + dtable.describe(p[1]))
+        return None
+
+    def head_of(self, e, env):
+        """index var if e is *seqs[i].first"""
+        dd = match.deref_of(e)
+        if dd is None:
+            return None
+        sf = self.seq_field(dd, env)
+        return sf[1] if sf and sf[0] == "first" else None
+
+    def value(self, e, st):
+        """True / False / int / 'null' / ('head', var) / None (unknown); raises _NeedE when the answer depends on E"""
+        e = strip_casts(e)
+        if e is None:
+            return None
+        k = e["k"]
+        if k in ("ParenExpr", "ExprWithCleanups", "MaterializeTemporaryExpr", "CXXBindTemporaryExpr"):
+            return self.value(kids(e)[0], st)
+        if "callee" in e and e["callee"]["name"] in ("__builtin_expect",) and kids(e):
+            return self.value([a for a in kids(e) if a is not None][-2], st)
+        if k in ("NullPtr", "CXXNullPtrLiteralExpr", "GNUNullExpr"):
+            return "null"
+        if k == "CXXBoolLiteralExpr":
+            return bool(e.get("val"))
+        ci = const_int(e)
+        if ci is not None:
+            return bool(ci) if (e.get("ty") or "") == "bool" else ci
+        if k == "DeclRefExpr":
+            for d, v in st[4]:
+                if d == e["ref"]["id"] and v != "bound":
+                    return v
+            return None
+        if k == "UnaryOperator" and e.get("op") == "!":
+            v = self.value(kids(e)[0], st)
+            if v is None:
+                return None
+            if v == "null":
+                return True
+            if isinstance(v, tuple):
+                return False
+            return not v
+        if k == "UnaryOperator" and e.get("op") == "&":
+            h = self.head_of(kids(e)[0], st[4])
+            return ("head", h) if h is not None else None
+        if k == "ConditionalOperator":
+            c = self.value(kids(e)[0], st)
+            if c is None:
+                return None
+            return self.value(kids(e)[1] if c else kids(e)[2], st)
+        b = match.binop(e, ("==", "!="))
+        if b:
+            fa, fb = self.seq_field(b[1], st[4]), self.seq_field(b[2], st[4])
+            if fa and fb and {fa[0], fb[0]} == {"first", "second"} and fa[1] == fb[1]:
+                if fa[1] == self.src and self.src is not None:
+                    if st[2] is None:
+                        raise _NeedE()
+                    return st[2] if b[0] == "==" else not st[2]
+                return None
+            l, r = self.value(b[1], st), self.value(b[2], st)
+            if l is not None and r is not None and not isinstance(l, tuple) and not isinstance(r, tuple):
+                return (l == r) if b[0] == "==" else (l != r)
+            return None
+        b = match.binop(e, ("&&", "||"))
+        if b:
+            l = self.value(b[1], st)
+            if l is not None and bool(l) == (b[0] == "||"):
+                return b[0] == "||"
+            r = self.value(b[2], st)
+            if l is not None and r is not None:
+                return bool(r)
+            if r is not None and bool(r) == (b[0] == "||"):
+                return b[0] == "||"
+            return None
+        return None
+
+    def bad(self, sig, msg, node):
+        if not any(p[0] == sig for p in self.problems):
+            self.problems.append((sig, msg, node))
+
+    # ---- events
+    def step(self, kind, st, node, x=None, args=None):
+        """-> list of successor states"""
+        tree, srcok, E, tpend, env = st
+        self.seen_events.add(kind)
+        if kind == "START":
+            if tree != "FRESH":
+                self.bad("start-late", "insert_start() after init()", node)
+            return [st]
+        if kind == "INIT":
+            if tree != "FRESH":
+                self.bad("init-twice", "init() called on a tree that is already in use", node)
+            return [("SYNC", False, None, tpend, env)]
+        if tree == "FRESH":
+            self.bad("pre-order", "the tree is used before init(): order must be insert_start x k, init(), min_source()", node)
+            return []
+        if kind == "MIN":
+            # min_source() reports the winner of the tree as it is; aliases of the previous winner's sequence die
+            env2 = frozenset((d, v) for d, v in env if v != "bound")
+            return [(tree, True, None, tpend, env2)]
+        if kind == "EMIT":
+            if x != self.src or not srcok:
+                self.bad("winner-var", "the emitted element is not the head of the sequence reported by min_source()", node)
+                return []
+            if tree != "SYNC":
+                self.bad("loop-order", "an element is emitted while the previous winner has not been replaced in the tree "
+                         "(order must be min_source, emit, advance, delete_min_insert)", node)
+                return []
+            if tpend:
+                self.bad("target", "the output position is overwritten: target was not advanced after the previous element", node)
+                return []
+            return [("EMITTED", srcok, E, True, env)]
+        if kind == "TGT":
+            if not tpend:
+                self.bad("target", "target is advanced without an element having been written (hole in the output)", node)
+                return []
+            return [(tree, srcok, E, False, env)]
+        if kind == "ADV":
+            if x != self.src or not srcok:
+                self.bad("winner-var", "the advanced sequence is not the one reported by min_source()", node)
+                return []
+            if tree != "EMITTED":
+                self.bad("loop-order", "the winner's sequence is advanced %s (order must be min_source, emit, advance, delete_min_insert)"
+                         % ("without its head having been emitted" if tree == "SYNC" else "twice"), node)
+                return []
+            env2 = frozenset((d, v) for d, v in env if v == "bound" or isinstance(v, int) and not isinstance(v, bool) or (d, "E") not in self.edep)
+            return [("CONSUMED", srcok, None, tpend, env2)]
+        if kind == "DMI":
+            if tree != "CONSUMED":
+                self.bad("loop-order", "delete_min_insert() %s (order must be min_source, emit, advance, delete_min_insert)"
+                         % ("before the winner was emitted and advanced" if tree == "SYNC" else "before the winner's sequence was advanced"), node)
+                return []
+            key, sup = args
+            if self.guarded and E is None:
+                out = []
+                for e_ in (True, False):
+                    out += self.step(kind, (tree, srcok, e_, tpend, env), node, x, args)
+                return out
+            stE = (tree, srcok, E, tpend, env)
+            kv = self.value(key, stE)
+            sv = self.value(sup, stE) if sup is not None else False
+            if kv is None or sv is None or isinstance(sv, tuple) or sv == "null":
+                raise ir.AnalysisBroken("%s: arguments of delete_min_insert() not understood at line %s" % (self.fn.full, node.get("l")))
+            exhausted = bool(E) if self.guarded else False
+            if bool(sv) != exhausted or (kv == "null") != exhausted:
+                self.bad("feed", "the winner's next key must be fed from the winner's own sequence, exhausted iff first == second "
+                         "(sequence %s: key %s, sup %s)" % ("exhausted" if exhausted else "not exhausted",
+                                                           "nullptr" if kv == "null" else "given", bool(sv)), node)
+                return []
+            if not exhausted and kv != ("head", self.src):
+                self.bad("feed", "delete_min_insert is not fed from the current winner's sequence", node)
+                return []
+            if not srcok:
+                self.bad("winner-var", "delete_min_insert is fed through a stale winner variable", node)
+                return []
+            return [("SYNC", False, None, tpend, env)]
+        raise ir.AnalysisBroken("event " + kind)
+
+    edep = frozenset()
+
+    def expr(self, e, states):
+        """executes an expression statement on a list of states"""
+        e0 = strip_casts(e)
+        while e0 is not None and e0["k"] in ("ExprWithCleanups", "ParenExpr"):
+            e0 = strip_casts(kids(e0)[0])
+        if e0 is None:
+            return states
+        fn = self.fn
+
+        def each(kind, node, x=None, args=None):
+            out = []
+            for st in states:
+                out += self.step(kind, st, node, x, args)
+            return dedupe(out)
+        c = self.ltcall(e0, ("insert_start",))
+        if c:
+            return each("START", c)
+        c = self.ltcall(e0, ("init",))
+        if c:
+            return each("INIT", c)
+        c = self.ltcall(e0, ("delete_min_insert",))
+        if c:
+            a = kids(c)[1:]
+            return each("DMI", c, None, (a[0], a[1] if len(a) > 1 else None))
+        b = match.binop(e0, ("=",))
+        if b:
+            lhs = strip_casts(b[1])
+            d = match.deref_of(lhs)
+            if d is not None and ref_of(strip_post(d)) == self.target:
+                post = strip_post(d) is not strip_casts(d)
+                out = []
+                for st in states:
+                    h = self.head_of(b[2], st[4])
+                    if h is None:
+                        raise ir.AnalysisBroken("%s: value written to the output not understood at line %s" % (fn.full, e0.get("l")))
+                    for s2 in self.step("EMIT", st, e0, h):
+                        out += self.step("TGT", s2, e0) if post else [s2]
+                return dedupe(out)
+            if ref_of(lhs) == self.src and self.src is not None:
+                if not self.ltcall(strip_casts(b[2]), ("min_source",)):
+                    raise ir.AnalysisBroken("%s: winner variable assigned from something else at line %s" % (fn.full, e0.get("l")))
+                return each("MIN", e0)
+            if ref_of(lhs) is not None and ref_of(lhs) not in (self.target, self.lt):
+                return [self.assign(st, ref_of(lhs), b[2]) for st in states]
+        u = match.unop(e0, ("++",))
+        inc1 = match.binop(e0, ("+=",))
+        if inc1 and const_int(inc1[2]) == 1:
+            u = ("++", inc1[1])
+        if u:
+            if ref_of(u[1]) == self.target:
+                return each("TGT", e0)
+            out = []
+            hit = False
+            for st in states:
+                sf = self.seq_field(u[1], st[4])
+                if sf and sf[0] == "first":
+                    hit = True
+                    out += self.step("ADV", st, e0, sf[1])
+                else:
+                    out.append(st)
+            if hit:
+                return dedupe(out)
+        # anything else must not touch the tree or the output position
+        for z in walk(e0):
+            if z["k"] == "LambdaExpr":
+                continue
+            if z["k"] == "DeclRefExpr" and z["ref"]["id"] == self.lt:
+                raise ir.AnalysisBroken("%s: use of the loser tree not understood at line %s" % (fn.full, z.get("l")))
+            w = match.unop(z, ("++", "--")) or (match.binop(z, ("=", "+=", "-=")) if z["k"] in ("BinaryOperator", "CompoundAssignOperator", "CXXOperatorCallExpr") else None)
+            if w and (ref_of(w[1]) in (self.target, self.src) or (z is not e0 and self.seq_field_safe(w[1]))):
+                raise ir.AnalysisBroken("%s: update of the merge cursor not understood at line %s" % (fn.full, z.get("l")))
+        # locals changed by ++/-- lose their constant
+        out = []
+        for st in states:
+            env = st[4]
+            for z in walk(e0):
+                w = match.unop(z, ("++", "--")) or (match.binop(z, ("=", "+=", "-=", "*=", "/=")) if z["k"] in ("BinaryOperator", "CompoundAssignOperator") else None)
+                if w and ref_of(w[1]) is not None:
+                    env = frozenset((d, v) for d, v in env if d != ref_of(w[1]))
+            out.append(st[:4] + (env,))
+        return dedupe(out)
+
+    def seq_field_safe(self, e):
+        try:
+            return self.seq_field(e)
+        except ir.AnalysisBroken:
+            return None
+
+    def assign(self, st, did, rhs):
+        env = frozenset((d, v) for d, v in st[4] if d != did)
+        try:
+            v = self.value(rhs, st)
+        except _NeedE:
+            v = None
+        if isinstance(v, (bool, int)):
+            env = env | {(did, v)}
+        return st[:4] + (env,)
+
+    def decl(self, v, states):
+        fn = self.fn
+        init = kids(v)[0] if kids(v) else None
+        if v["did"] == self.lt or init is None:
+            return states
+        if self.ltcall(strip_casts(init), ("min_source",)):
+            if self.src is not None and self.src != v["did"]:
+                raise ir.AnalysisBroken("%s: two winner variables" % fn.full)
+            self.src = v["did"]
+            out = []
+            for st in states:
+                out += self.step("MIN", st, v)
+            return dedupe(out)
+        if any(self.ltcall(z, ("min_source", "delete_min_insert", "init", "insert_start")) for z in walk(init)):
+            raise ir.AnalysisBroken("%s: use of the loser tree not understood at line %s" % (fn.full, v.get("l")))
+        ty = v.get("ty") or ""
+        if ty.rstrip().endswith("&"):
+            sf = self.seq_field_safe(init)
+            if sf:
+                self.alias[v["did"]] = sf
+                return dedupe([st[:4] + (st[4] | {(v["did"], "bound")},) for st in states])
+            return states
+        out = []
+        for st in states:
+            pend = [st]
+            while pend:
+                s1 = pend.pop()
+                try:
+                    val = self.value(init, s1)
+                except _NeedE:
+                    pend += [s1[:2] + (True,) + s1[3:], s1[:2] + (False,) + s1[3:]]
+                    self.edep = self.edep | {(v["did"], "E")}
+                    continue
+                env = frozenset((d, x) for d, x in s1[4] if d != v["did"])
+                if isinstance(val, (bool, int)):
+                    env = env | {(v["did"], val)}
+                out.append(s1[:4] + (env,))
+        return dedupe(out)
+
+    def cond(self, c, states):
+        """-> (true states, false states)"""
+        t, f = [], []
+        if c is None:
+            return list(states), []
+        for z in walk(c):
+            if self.ltcall(z, ("min_source", "delete_min_insert", "init", "insert_start")):
+                raise ir.AnalysisBroken("%s: loser tree used inside a condition at line %s" % (self.fn.full, z.get("l")))
+        pend = list(states)
+        while pend:
+            st = pend.pop()
+            try:
+                v = self.value(c, st)
+            except _NeedE:
+                pend += [st[:2] + (True,) + st[3:], st[:2] + (False,) + st[3:]]
+                continue
+            if v is None:
+                t.append(st); f.append(st)
+            elif v == "null" or v is False or v == 0:
+                f.append(st)
+            else:
+                t.append(st)
+        # side effects inside the condition (--remaining) drop constants
+        t, f = self.expr_effects(c, t), self.expr_effects(c, f)
+        return dedupe(t), dedupe(f)
+
+    def expr_effects(self, c, states):
+        ws = [ref_of(w[1]) for z in walk(c) for w in [match.unop(z, ("++", "--")) or (match.binop(z, ("=", "+=", "-=")) if z["k"] in ("BinaryOperator", "CompoundAssignOperator") else None)] if w]
+        if any(d in (self.target, self.src, self.lt) for d in ws):
+            raise ir.AnalysisBroken("%s: merge cursor changed inside a condition at line %s" % (self.fn.full, c.get("l")))
+        ws = {d for d in ws if d is not None}
+        if not ws:
+            return states
+        return [st[:4] + (frozenset((d, v) for d, v in st[4] if d not in ws),) for st in states]
+
+    def block(self, stmts, states):
+        """-> (fall-through, break, continue) state lists; returns are checked on the spot"""
+        brk, cont = [], []
+        for s in stmts:
+            if not states:
+                break
+            states, b, c = self.stmt(s, states)
+            brk += b
+            cont += c
+        return states, brk, cont
+
+    def stmt(self, s, states):
+        self.nsteps += 1
+        if self.nsteps > 20000:
+            raise ir.AnalysisBroken("%s: protocol analysis does not terminate" % self.fn.full)
+        if s is None:
+            return states, [], []
+        k = s["k"]
+        if k == "CompoundStmt":
+            return self.block(kids(s), states)
+        if k in ("NullStmt",):
+            return states, [], []
+        if k == "DeclStmt":
+            for v in kids(s):
+                if v["k"] == "VarDecl":
+                    states = self.decl(v, states)
+            return states, [], []
+        if k == "IfStmt":
+            c, t, e = kids(s)[0], kids(s)[1], kids(s)[2] if len(kids(s)) > 2 else None
+            ts, fs = self.cond(c, states)
+            a1, b1, c1 = self.stmt(t, ts) if ts else ([], [], [])
+            a2, b2, c2 = (self.stmt(e, fs) if e is not None else (fs, [], [])) if fs else ([], [], [])
+            return dedupe(a1 + a2), b1 + b2, c1 + c2
+        if k == "ReturnStmt":
+            for st in states:
+                if st[3]:
+                    self.bad("target", "the function returns while the last written element is not included in the returned end "
+                             "(target not advanced)", s)
+            return [], [], []
+        if k == "BreakStmt":
+            return [], list(states), []
+        if k == "ContinueStmt":
+            return [], [], list(states)
+        if k in ("ForStmt", "WhileStmt", "DoStmt"):
+            init, c, inc, body = match.loop_parts(s)
+            if init is not None:
+                states, _, _ = self.stmt(init, states)
+            head, exits = set(), []
+            work = list(states)
+            first = k == "DoStmt"
+            while work:
+                new = [st for st in dedupe(work) if st not in head]
+                work = []
+                if not new:
+                    break
+                head |= set(new)
+                if first:
+                    ts, fs = new, []
+                else:
+                    ts, fs = self.cond(c, new)
+                exits += fs
+                if not ts:
+                    continue
+                a, b, cn = self.stmt(body, ts)
+                exits += b
+                nxt = dedupe(a + cn)
+                if inc is not None and nxt:
+                    nxt = self.expr(inc, nxt)
+                if k == "DoStmt" and nxt:
+                    ts2, fs2 = self.cond(c, nxt)
+                    exits += fs2
+                    nxt = ts2
+                    # states re-entering the body
+                    first = True
+                work = nxt
+            return dedupe(exits), [], []
+        if k in ("SwitchStmt", "GotoStmt", "LabelStmt", "CXXTryStmt"):
+            raise ir.AnalysisBroken("%s: %s in a loser-tree driver" % (self.fn.full, k))
+        return self.expr(s, states), [], []
+
+
+def strip_post(d):
+    """x for x++ (builtin or overloaded postfix increment), else d"""
+    d = strip_casts(d)
+    while d is not None and d["k"] == "ParenExpr":
+        d = strip_casts(kids(d)[0])
+    if d is not None and d["k"] == "UnaryOperator" and d.get("op") == "++" and d.get("postfix"):
+        return strip_casts(kids(d)[0])
+    if d is not None and d["k"] == "CXXOperatorCallExpr" and d.get("op") == "++" and len(kids(d)) == 3:
+        return strip_casts(kids(d)[1])
+    return d
+
+
+def dedupe(states):
+    seen, out = set(), []
+    for s in states:
+        if s not in seen:
+            seen.add(s)
+            out.append(s)
+    return out
+
+
 def check_lt_protocol(ck, tu):
     for name in ("multiway_merge_loser_tree", "multiway_merge_loser_tree_unguarded"):
         fns = tu.some(qname=NS + name)
@@ -625,130 +1107,46 @@ def check_lt_protocol(ck, tu):
             ltv = [x for x in ir.walk(fn.body) if x["k"] == "VarDecl" and x.get("ty", "").startswith("tlx::LoserTree")]
             ck.require(len(ltv) == 1, "%s: loser tree local not found" % fn.loc)
             lt = ltv[0]["did"]
-
-            def ltcall(x, names):
-                if x is None or "callee" not in x:
-                    return None
-                c = match.call_named(x, names)
-                return c if c and c.get("member_call") and ref_of(kids(c)[0]) == lt else None
-
-            def seq_first(e, idxvar=None):
-                """index variable if e is seqs[i].first"""
-                f = match.field_of(e)
-                if f and f[1] == "first":
-                    p = match.index_parts(f[0])
-                    if p and ref_of(p[0]) == seqs:
-                        return ref_of(p[1])
-                return None
-
-            def classify(s, src):
-                """event kind of a top-level statement"""
-                evs = []
-                for x in ir.walk(s):
-                    if ltcall(x, ("delete_min_insert",)):
-                        evs.append(("DMI", x))
-                    if ltcall(x, ("min_source",)):
-                        evs.append(("MIN", x))
-                    if ltcall(x, ("init",)):
-                        evs.append(("INIT", x))
-                    if ltcall(x, ("insert_start",)):
-                        evs.append(("START", x))
-                b = match.binop(s, ("=",))
-                if b:
-                    d = match.deref_of(b[1])
-                    if d is not None and ref_of(d) == target:
-                        dd = match.deref_of(b[2])
-                        evs.append(("EMIT", seq_first(dd) if dd is not None else None))
-                u = match.unop(s, ("++",))
-                if u:
-                    if ref_of(u[1]) == target:
-                        evs.append(("TGT", None))
-                    elif seq_first(u[1]) is not None:
-                        evs.append(("ADV", seq_first(u[1])))
-                return evs
-            # source variable: assigned from min_source()
-            src = None
-            for x in ir.walk(fn.body):
-                if x["k"] == "VarDecl" and kids(x) and ltcall(strip_casts(kids(x)[0]), ("min_source",)):
-                    src = x["did"]
-            ck.require(src is not None, "%s: winner variable not found" % fn.loc)
-            loops = [s for s in kids(fn.body) if s["k"] in ("ForStmt", "WhileStmt")]
-            main = [l for l in loops if any(ltcall(x, ("delete_min_insert",)) for x in ir.walk(l))]
-            start = [l for l in loops if any(ltcall(x, ("insert_start",)) for x in ir.walk(l))]
-            ck.require(len(main) == 1 and len(start) == 1, "%s: start loop / replay loop not found" % fn.loc)
+            fl = LTFlow(fn, lt, seqs, target, guarded)
             problems = []
             # (a) start loop: every player t in [0,k) inserted with its own head
+            loops = [s for s in kids(fn.body) if s["k"] in ("ForStmt", "WhileStmt")]
+            start = [l for l in loops if any(fl.ltcall(x, ("insert_start",)) for x in ir.walk(l))]
+            ck.require(len(start) == 1, "%s: start loop not found" % fn.loc)
             sl = start[0]
             init, cond, inc, body = match.loop_parts(sl)
-            tvar = [x["did"] for x in ir.walk(init) if x["k"] == "VarDecl"]
-            for c in [x for x in ir.walk(body) if ltcall(x, ("insert_start",))]:
+            tvar = [x["did"] for x in ir.walk(init) if x["k"] == "VarDecl"] if init is not None else []
+            if not tvar:
+                tvar = [ref_of(u[1]) for z in ir.walk(sl) for u in [match.unop(z, ("++",))] if u and ref_of(u[1]) is not None
+                        and ref_of(u[1]) not in (seqs, target)]
+            ck.require(len(tvar) >= 1, "%s: index of the start loop not found" % fn.loc)
+            for c in [x for x in ir.walk(body) if fl.ltcall(x, ("insert_start",))]:
                 a = kids(c)[1:]
                 if ref_of(a[1]) not in tvar:
                     problems.append(("start-source", "insert_start is not called with the loop index as source", c))
                 key = strip_casts(a[0])
                 if key["k"] != "NullPtr" and const_int(a[2]) != 1:
-                    ad = key if key["k"] == "UnaryOperator" and key["op"] == "&" else None
-                    dd = match.deref_of(kids(ad)[0]) if ad else None
-                    if dd is None or seq_first(dd) not in tvar:
+                    h = fl.head_of(kids(key)[0], None) if key["k"] == "UnaryOperator" and key["op"] == "&" else None
+                    if h is None:
+                        raise ir.AnalysisBroken("%s: key of insert_start() not understood at line %s" % (fn.full, c.get("l")))
+                    if h not in tvar:
                         problems.append(("start-key", "insert_start does not take the head of sequence t", c))
-            # (b) order of events before and inside the replay loop
-            seq_events = []
-            pre = kids(fn.body)[kids(fn.body).index(sl) + 1: kids(fn.body).index(main[0])]
-            for s in pre:
-                seq_events += [e[0] for e in classify(s, src)]
-            pre_s = [e for e in seq_events if e in ("INIT", "MIN", "EMIT", "ADV")]
-            if pre_s[:1] != ["INIT"] or "MIN" not in pre_s or pre_s.index("MIN") > pre_s.index("EMIT") if "EMIT" in pre_s else True:
-                problems.append(("pre-order", "before the loop the order must be init(), min_source(), emit, advance: got %s" % pre_s, pre[0] if pre else fn.body))
-            mbody = match.loop_parts(main[0])[3]
-            evs = []
-            for s in kids(mbody):
-                if s["k"] == "IfStmt":
-                    # sup iff exhausted
-                    c, t, e = kids(s)
-                    b = match.binop(c, ("==",))
-                    ok_if = False
-                    if b:
-                        fa, fb = match.field_of(b[1]), match.field_of(b[2])
-                        ia = match.index_parts(fa[0]) if fa else None
-                        ib = match.index_parts(fb[0]) if fb else None
-                        if fa and fb and {fa[1], fb[1]} == {"first", "second"} and ia and ib and ref_of(ia[1]) == src and ref_of(ib[1]) == src:
-                            dt = [x for x in ir.walk(t) if ltcall(x, ("delete_min_insert",))]
-                            de = [x for x in ir.walk(e) if ltcall(x, ("delete_min_insert",))] if e else []
-                            if len(dt) == 1 and len(de) == 1:
-                                at, ae = kids(dt[0])[1:], kids(de[0])[1:]
-                                ok_if = strip_casts(at[0])["k"] == "NullPtr" and const_int(at[1]) == 1 and const_int(ae[1]) == 0
-                                k_ = strip_casts(ae[0])
-                                dd = match.deref_of(kids(k_)[0]) if k_["k"] == "UnaryOperator" and k_["op"] == "&" else None
-                                ok_if = ok_if and dd is not None and seq_first(dd) == src
-                    if not ok_if:
-                        problems.append(("feed", "the winner's next key must be fed from the winner's own sequence, exhausted iff first == second", s))
-                    evs.append(("DMI", src))
-                    continue
-                for e in classify(s, src):
-                    if e[0] == "DMI":
-                        a = kids(e[1])[1:]
-                        k_ = strip_casts(a[0])
-                        dd = match.deref_of(kids(k_)[0]) if k_["k"] == "UnaryOperator" and k_["op"] == "&" else None
-                        if dd is None or seq_first(dd) != src:
-                            problems.append(("feed", "delete_min_insert is not fed from the current winner's sequence", e[1]))
-                        evs.append(("DMI", src))
-                    elif e[0] == "MIN":
-                        b = match.binop(s, ("=",))
-                        evs.append(("MIN", ref_of(b[1]) if b else None))
-                    else:
-                        evs.append(e)
-            kinds = [e[0] for e in evs if e[0] in ("DMI", "MIN", "EMIT", "ADV")]
-            if kinds[:2] != ["DMI", "MIN"] or sorted(kinds[2:]) != ["ADV", "EMIT"] or kinds.index("EMIT") > kinds.index("ADV"):
-                problems.append(("loop-order", "replay loop must do delete_min_insert, min_source, emit, advance in this order: got %s" % kinds, main[0]))
-            for e in evs:
-                if e[0] in ("EMIT", "ADV", "MIN") and e[1] != src:
-                    problems.append(("winner-var", "%s does not use the winner reported by min_source()" % e[0], main[0]))
+            # (b) the protocol as a typestate over every path of the driver
+            st0 = ("FRESH", False, None, False, frozenset())
+            fall, _, _ = fl.block(kids(fn.body), [st0])
+            if fall:
+                raise ir.AnalysisBroken("%s: driver falls off its end" % fn.full)
+            need = {"START", "INIT", "MIN", "EMIT", "TGT", "ADV", "DMI"}
+            if not fl.problems and not need <= fl.seen_events:
+                raise ir.AnalysisBroken("%s: protocol events %s never seen" % (fn.full, sorted(need - fl.seen_events)))
+            problems += fl.problems
             if problems:
                 for sig, msg, node in problems[:3]:
                     ck.violation("LT-PROTOCOL", fn.qname, ("guarded:" if guarded else "unguarded:") + sig, msg, fn.nloc(node))
             else:
                 ck.ok("LT-PROTOCOL", "%s<%s>" % (name, fn.targs[0].split("<")[0]),
-                      "insert_start x k -> init -> (min_source, emit+advance that source, delete_min_insert fed from that source)*")
+                      "typestate over all paths: insert_start x k -> init -> (min_source, emit+advance that source, "
+                      "delete_min_insert fed from that source, sup iff exhausted)*")
 
 
 # ------------------------------------------------------------------ bubble merge
